@@ -315,6 +315,74 @@ example : (cGlamfit repaired false false ⟨good.data, [2, 0], good.knots, [true
     (cGlamfit repaired false false ⟨good.data, [2, 0], good.knots, [true, true], [0, 3], 1⟩ true none).1 = 1 := by decide
 
 
+/-! ## The validator against each modelled consumer
+
+What the repaired sanity block accepts satisfies the precondition of every consumer behind it, for all argument
+shapes (any number of dimensions, any list lengths — the hypotheses are only "the block fell through" and the
+well-formedness of the C struct that no code can check).  One theorem per consumer, stated on the consumer's own
+definition, plus the exactness of the penalty-order bound for the stack arrays. -/
+
+/-- weights ↔ data, and the broadcast rules: `smoothing` and `penaltyOrder` have one entry or one per dimension, and
+    the entry `fit` picks for dimension `i` exists. -/
+theorem accepted_shapes (a : Args) (hc : fitChecks repaired a = .ok) :
+    a.nweights = a.data.rows ∧ a.coordLens.length = a.data.ndim ∧ a.orders.length = a.data.ndim ∧
+    a.knots.length = a.data.ndim ∧
+    (∀ i, i < a.data.ndim → a.smoothIdx i < a.smoothNZ.length ∧ a.penIdx i < a.penalty.length) ∧
+    (a.monodim = noMonodim ∨ a.monodim < a.data.ndim) := by
+  have hn := checks_imply_needs a hc
+  exact ⟨hn.nweights, hn.ncoords, hn.norders, hn.nknotvecs,
+    fun i hi => ⟨smoothIdx_lt hn.nsmooth hi, penIdx_lt hn.npenalty hi⟩, hn.monodim⟩
+
+/-- `bsplinebasis` (and `bspline` under it) for dimension `i`: reads `coords[i][0 .. ranges[i])`, the knots
+    `[col .. col+order+1]` and writes the `ranges[i] × nsplines` cells — all in bounds. -/
+theorem accepted_bsplinebasis_safe (a : Args) (hc : fitChecks repaired a = .ok) (i : Nat) (hi : i < a.data.ndim) :
+    a.rangeOf i ≤ a.coordLen i ∧ sortedB (a.knotsAt i) = true ∧ 2 * a.ordAt i + 2 ≤ a.nkAt i ∧
+    bsplineBasis (a.nkAt i) (a.rangeOf i) (a.coordLen i) (a.ordAt i) = .ok := by
+  have hn := checks_imply_needs a hc
+  have := hn.knots_len i hi
+  exact ⟨hn.coord_len i hi, hn.sorted i hi, this, bsplineBasis_ok (by omega) (hn.coord_len i hi)⟩
+
+/-- `divided_diffs` as `calc_penalty` calls it for dimension `i` and any row of the difference matrix: the penalty
+    order is at most the spline order (hence at most the `order+1` cells of `a`, `b`), and the recursion stays inside
+    `a`, `b`, `divd` and the knot vector. -/
+theorem accepted_divided_diffs_safe (a : Args) (hc : fitChecks repaired a = .ok) (i : Nat) (hi : i < a.data.ndim)
+    (row : Nat) (hrow : row < a.nsplAt i - a.penAt i) :
+    a.penAt i ≤ a.ordAt i ∧
+    dividedDiffs (a.ordAt i + 1) (a.nkAt i) (a.ordAt i) (a.penAt i) row (a.penAt i + 1) = .ok := by
+  have hn := checks_imply_needs a hc
+  have hk := hn.knots_len i hi
+  have hp := hn.pen_le i hi
+  have hs : a.nsplAt i = a.nkAt i - a.ordAt i - 1 := nsplinesOf_eq (by omega)
+  rw [hs] at hrow
+  exact ⟨hp, dividedDiffs_ok (by omega) _ _ _ (by omega) (by omega) (by omega) (fun _ => by omega)⟩
+
+/-- **The bound of the stack arrays is exact**: with `a[L], b[L]`, a penalty order above `L` always overruns them
+    (the read `a[porder-1]`), whatever knots and output array — so `porder ≤ order+1` is what memory safety needs
+    (fixes/C13-4 made `L = order+1`), and the sanity block's `porder ≤ order` is the stricter, numerically meaningful
+    bound (`porder = order+1` divides by `order-(porder-1) = 0`). -/
+theorem divided_diffs_bound_exact (L nk order p j outLen : Nat) (h : L ≤ p) :
+    dividedDiffs L nk order (p+1) j outLen ≠ .ok := by
+  intro hok
+  simp only [dividedDiffs, seqAll_cons_ok, seqAll_nil, rd_ok_iff] at hok
+  have := hok.2.2.2.2.2.2.2.2.1
+  omega
+
+/-- … while `porder = order+1` still fits them (for the repaired `order+1` cells). -/
+theorem divided_diffs_order_plus_one_fits (nk order j : Nat) (h : j + 2 * order + 1 < nk) :
+    dividedDiffs (order + 1) nk order (order + 1) j (order + 2) = .ok :=
+  dividedDiffs_ok (by omega) _ _ _ (by omega) (by omega) (by omega) (fun _ => by omega)
+
+/-- the monotone tail of `glamfit_complex`: the requested dimension exists, the cumulative sums stay inside the
+    coefficient array -/
+theorem accepted_monotone_tail_safe (a : Args) (hc : fitChecks repaired a = .ok) (hm : a.monodim ≠ noMonodim) :
+    a.monodim < a.data.ndim ∧ monoTail ((List.range a.data.ndim).map a.nsplAt) a.monodim = .ok := by
+  have hn := checks_imply_needs a hc
+  have hlt : a.monodim < a.data.ndim := by rcases hn.monodim with h | h; exact absurd h hm; exact h
+  exact ⟨hlt, monoTail_ok _ _ (by simpa using hlt)⟩
+
+example : fitChecks repaired good = .ok ∧ (1 : Nat) < good.data.ndim ∧ (0 : Nat) < good.nsplAt 0 - good.penAt 0 ∧
+    good.monodim ≠ noMonodim ∧ (0 : Nat) + 2 * 1 + 1 < 5 := by decide
+
 /-! ## Integer widths: from the assumption `SizesFit` to the decidable predicate `NoWrapB`
 
 `fitBodyW` (Model/FitEntry.lean) is `fitBody` with the C integer types.  `NoWrapB a` is a decidable condition on the
